@@ -42,6 +42,8 @@ def parse_model_result(s):
 def agree(ir, mr, payload, variant, plain=False):
     """Does the implementation's result ir (parsed) agree with the model's mr?  Returns None or a description."""
     k = ir['kind']
+    if k == 'T':
+        return None            # aborted by the harness lexer; the model has no such event (compared in histories only)
     if k == 'L' or (plain and mr['kind'] == 'F'):
         if plain or mr['kind'] == 'F' or len(mr.get('reds', [])) > LIMIT:
             return None
@@ -122,7 +124,7 @@ def run(name, grammars, jobs, variants=genrun.ALL_VARIANTS, **kw):
             if out['gen'][gname].get(vn, {}).get('rc') != 0:
                 continue
             for (mode, payload) in jobs.get(gname, []):
-                if mode in ('nest', 'nestr') or (vn == 'ts' and mode == 'trace'):
+                if mode in ('nest', 'nestr', 'tracen') or (vn == 'ts' and mode == 'trace'):
                     continue
                 raw = out['res'][gname][vn].get((mode, payload))
                 ms = model.get((gname, vn, mode, payload))
